@@ -24,10 +24,10 @@ import (
 func TestVerifC17Degraded(t *testing.T) {
 	r := vk.Start(t, "C17")
 	defer r.Finish()
-	r.Expect("degraded:n3r2", "degraded:n4r2", "degraded:n4r3", "degraded:state-degraded") // "degraded:answers-unchanged" cannot be expected while the known finding stands
+	r.Expect("degraded:n3r2", "degraded:n4r2", "degraded:n4r3", "degraded:state-degraded", "unreachable:answers-unchanged", "unreachable:n3r2", "unreachable:n4r2", "unreachable:n4r3") // "degraded:answers-unchanged" cannot be expected while the known finding stands
 	ctx := context.Background()
 	battery := c17Battery()
-	n := r.N(12, 480)
+	n := r.N(32, 1280)
 	r.Cases("degraded", n, func(i int, id string, rng *vk.Rand) {
 		cfg := [][2]int{{3, 2}, {4, 2}, {4, 3}}[rng.Intn(3)]
 		d := c17GenData(rng)
@@ -72,6 +72,41 @@ func TestVerifC17Degraded(t *testing.T) {
 		// ---- stop one non-coordinator node
 		victim := 1 + rng.Intn(cfg[0]-1)
 		wit["stopped_node"] = victim
+		if rng.Bool() {
+			// ---- variant: the node stays in the ring (gossip alive) but its HTTP listener is gone: the
+			// coordinating node's requests to it fail and the executor must fail over to the replicas
+			wit["variant"] = "http-listener-closed"
+			r.InFlightDetail(id, wit)
+			if err := c[victim].Command.Handler.Close(); err != nil {
+				r.Note("inconclusive:"+id, "closing the listener failed: "+err.Error())
+				return
+			}
+			for _, q := range battery {
+				if q.kind == "TopN-n" || q.kind == "TopN-filter" {
+					continue
+				}
+				for k := range c {
+					if k == victim {
+						continue
+					}
+					got, err := ask(k, q)
+					r.Eval(1)
+					if err != nil {
+						r.FailOrUndecided("unreachable:error:"+q.kind, id, fmt.Sprintf("with node %d unreachable over HTTP (still in the ring), %s via node %d: %v", victim, q.pql, k, err), wit)
+						return
+					}
+					if got != ref[q.kind] {
+						r.FailOrUndecided("unreachable:answer-changed:"+q.kind, id, fmt.Sprintf("with node %d unreachable over HTTP (still in the ring), %s via node %d answers %q; with all nodes reachable: %q", victim, q.pql, k, got, ref[q.kind]), wit)
+						return
+					}
+				}
+			}
+			r.Cover("unreachable:answers-unchanged")
+			r.Cover(fmt.Sprintf("unreachable:n%dr%d", cfg[0], cfg[1]))
+			r.Distinct(vk.Hash64("c17u", id), len(d.Shards) >= 2)
+			return
+		}
+		wit["variant"] = "node-stopped"
 		r.InFlightDetail(id, wit)
 		if err := c[victim].Close(); err != nil {
 			r.Note("inconclusive:"+id, "stopping the node failed: "+err.Error())
